@@ -26,18 +26,19 @@ type frame struct {
 	pre    *State // state at function entry (for old())
 	params map[string]Val
 	// return collection
-	rets    []retPoint
-	name    string
-	hdrs    map[int]*hdrInfo
-	named   map[string]Val
-	defs    []nameDef
-	locals  []localCell
-	cur     *ssa.BasicBlock
-	curSt   *State
-	prevHdr *hdrInfo
-	callOrd map[string]int
-	tuples  map[ssa.Value][]Val
-	safety  bool // emit nopanic obligations
+	rets     []retPoint
+	name     string
+	hdrs     map[int]*hdrInfo
+	named    map[string]Val
+	defs     []nameDef
+	locals   []localCell
+	deferred []deferRec
+	cur      *ssa.BasicBlock
+	curSt    *State
+	prevHdr  *hdrInfo
+	callOrd  map[string]int
+	tuples   map[ssa.Value][]Val
+	safety   bool // emit nopanic obligations
 }
 
 type localCell struct {
@@ -54,10 +55,16 @@ type nameDef struct {
 // lookupName resolves a source-level local at the current program point: the
 // latest definition (phi or DebugRef) in the nearest dominating block.
 func (f *frame) lookupName(name string) (Val, bool) {
-	if f.cur == nil {
+	return f.lookupNameFrom(name, f.cur)
+}
+
+// lookupNameFrom resolves a source-level local as seen at the end of block
+// from (and the blocks that dominate it).
+func (f *frame) lookupNameFrom(name string, from *ssa.BasicBlock) (Val, bool) {
+	if from == nil {
 		return Val{}, false
 	}
-	for b := f.cur; b != nil; b = b.Idom() {
+	for b := from; b != nil; b = b.Idom() {
 		for i := len(f.defs) - 1; i >= 0; i-- {
 			if f.defs[i].name == name && f.defs[i].blk == b {
 				return f.defs[i].val, true
@@ -325,7 +332,7 @@ func blockPos(b *ssa.BasicBlock) token.Pos {
 func (f *frame) exec(entryReach string, st0 *State) {
 	e := f.e
 	fn := f.fn
-	if fn.Recover != nil {
+	if fn.Recover != nil && usesRecover(fn) {
 		panic("defer/recover is outside the subset")
 	}
 	be := backEdges(fn)
@@ -922,19 +929,25 @@ func (f *frame) havocLoopHeap(st *State, n string, mi *modInfo) {
 	st.heaps[n] = e.define(n, e.hsort[n], h)
 }
 
+type deferRec struct {
+	ins *ssa.Defer
+	blk *ssa.BasicBlock
+}
+
 type hdrInfo struct {
 	spec   LoopSpec
 	varAt  string // decreases measure at header
 	ord    int
 	phiEnv map[string]Val
 	st     *State // heap at the loop header (after havoc)
+	blk    *ssa.BasicBlock
 }
 
 func (f *frame) loopHdr(b *ssa.BasicBlock, spec LoopSpec, st *State, env map[string]Val) {
 	if f.hdrs == nil {
 		f.hdrs = map[int]*hdrInfo{}
 	}
-	hi := &hdrInfo{spec: spec, phiEnv: env, st: st.clone()}
+	hi := &hdrInfo{spec: spec, phiEnv: env, st: st.clone(), blk: b}
 	if spec.Decreases != "" {
 		hi.varAt = f.evalSpecTerm(spec.Decreases, st, env).term
 	}
@@ -1089,6 +1102,17 @@ func (f *frame) runBlock(b *ssa.BasicBlock, st *State, be map[[2]int]bool, loopO
 			f.vals[v] = f.doConvert(v, x, st, reach)
 		case *ssa.ChangeType:
 			x := f.val(v.X)
+			from, to := e.sc.sortOf(v.X.Type()), e.sc.sortOf(v.Type())
+			if st, ok := v.Type().Underlying().(*types.Struct); ok && from != to && st.NumFields() > 0 {
+				// conversion between two named struct types with the same fields: each
+				// is its own datatype, so the value is rebuilt field by field
+				var fs []string
+				for i := 0; i < st.NumFields(); i++ {
+					fs = append(fs, fmt.Sprintf("(%s_f%d %s)", from, i, x.term))
+				}
+				f.vals[v] = Val{term: e.define(v.Name(), to, fmt.Sprintf("(mk_%s %s)", to, strings.Join(fs, " "))), typ: v.Type()}
+				continue
+			}
 			f.vals[v] = Val{term: x.term, typ: v.Type(), addr: x.addr, clo: x.clo, lit: x.lit}
 		case *ssa.FieldAddr:
 			x := f.val(v.X)
@@ -1152,7 +1176,10 @@ func (f *frame) runBlock(b *ssa.BasicBlock, st *State, be map[[2]int]bool, loopO
 			} else {
 				loc := e.alloc(st, elem, false, e.sc.zero(elem))
 				f.vals[v] = Val{term: loc, typ: v.Type()}
-				if !v.Heap {
+				if os.Getenv("GOVC_DEBUG") != "" && v.Heap {
+					fmt.Fprintf(os.Stderr, "alloc %s (%s) heap: deferOnlyCapture=%v\n", v.Name(), v.Comment, deferOnlyCapture(v))
+				}
+				if !v.Heap || deferOnlyCapture(v) {
 					hn, _ := e.heapName(elem, false)
 					f.locals = append(f.locals, localCell{hn, loc, v})
 				}
@@ -1363,8 +1390,25 @@ func (f *frame) runBlock(b *ssa.BasicBlock, st *State, be map[[2]int]bool, loopO
 				// a local that lives in a cell: remember the cell; the name denotes its current content
 				f.defs = append(f.defs, nameDef{"&" + id.Name, b, f.val(v.X)})
 			}
+		case *ssa.Defer:
+			// only `defer func() {...}()` registered on every path to the exits is
+			// modelled (the save/restore idiom); it runs at RunDefers
+			if _, ok := v.Call.Value.(*ssa.MakeClosure); (!ok || len(v.Call.Args) != 0) && (v.Call.StaticCallee() == nil || v.Call.IsInvoke()) {
+				panic("defer of anything but a function literal or a statically known function is outside the subset")
+			}
+			f.deferred = append(f.deferred, deferRec{v, b})
 		case *ssa.RunDefers:
-			panic("defer is outside the subset")
+			for i := len(f.deferred) - 1; i >= 0; i-- {
+				d := f.deferred[i]
+				if !d.blk.Dominates(b) {
+					if !blockReaches(d.blk, b) {
+						continue // not registered on any path to this exit
+					}
+					panic("a defer registered on some but not all paths to an exit is outside the subset")
+				}
+				// the deferred call is executed like a call instruction at this point
+				f.doCall(&ssa.Call{Call: d.ins.Call}, st, reach)
+			}
 		default:
 			panic(fmt.Sprintf("unsupported instruction %T: %s", ins, ins))
 		}
@@ -1766,6 +1810,119 @@ func (e *Engine) mapClear(st *State, m Val) {
 	}
 	P := e.heapByName(st, hp)
 	st.heaps[hp] = e.define(hp, e.hsort[hp], fmt.Sprintf("(store %s %s ((as const (Array %s Bool)) false))", P, m.term, e.sc.sortOf(mt.Key())))
+}
+
+// deferOnlyCapture reports whether a heap-allocated local is still private to
+// its activation: apart from direct loads and stores its address is only bound
+// into closures that are deferred (never stored, passed on or called by other
+// code), and those closures only load and store it. Such a cell cannot be
+// reached by any callee, so it keeps its content across havocked calls exactly
+// like a stack local.
+func deferOnlyCapture(a *ssa.Alloc) bool {
+	if a.Referrers() == nil {
+		return false
+	}
+	plain := func(refs *[]ssa.Instruction, self ssa.Value) bool {
+		if refs == nil {
+			return true
+		}
+		for _, r := range *refs {
+			switch x := r.(type) {
+			case *ssa.Store:
+				if x.Val == self {
+					return false
+				}
+			case *ssa.UnOp, *ssa.DebugRef:
+			default:
+				if _, ok := r.(*ssa.MakeClosure); ok && self == ssa.Value(a) {
+					continue // checked below
+				}
+				if os.Getenv("GOVC_DEBUG") != "" {
+					fmt.Fprintf(os.Stderr, "  referrer %T %v\n", r, r)
+				}
+				return false
+			}
+		}
+		return true
+	}
+	if !plain(a.Referrers(), a) {
+		return false
+	}
+	captured := false
+	for _, r := range *a.Referrers() {
+		mc, ok := r.(*ssa.MakeClosure)
+		if !ok {
+			continue
+		}
+		captured = true
+		fn, _ := mc.Fn.(*ssa.Function)
+		if fn == nil || mc.Referrers() == nil {
+			return false
+		}
+		for _, mr := range *mc.Referrers() {
+			if _, dbg := mr.(*ssa.DebugRef); dbg {
+				continue
+			}
+			d, ok := mr.(*ssa.Defer)
+			if !ok || d.Call.Value != ssa.Value(mc) {
+				if os.Getenv("GOVC_DEBUG") != "" {
+					fmt.Fprintf(os.Stderr, "  closure referrer %T %v\n", mr, mr)
+				}
+				return false
+			}
+		}
+		for i, b := range mc.Bindings {
+			if b == ssa.Value(a) {
+				if i >= len(fn.FreeVars) || !plain(fn.FreeVars[i].Referrers(), fn.FreeVars[i]) {
+					return false
+				}
+			}
+		}
+	}
+	return captured
+}
+
+// usesRecover: some function literal inside fn calls recover(). Without that
+// the recover block go/ssa adds to every function with a defer is dead code.
+func usesRecover(fn *ssa.Function) bool {
+	var scan func(g *ssa.Function) bool
+	scan = func(g *ssa.Function) bool {
+		for _, b := range g.Blocks {
+			for _, ins := range b.Instrs {
+				if c, ok := ins.(ssa.CallInstruction); ok {
+					if bi, ok := c.Common().Value.(*ssa.Builtin); ok && bi.Name() == "recover" {
+						return true
+					}
+				}
+			}
+		}
+		for _, a := range g.AnonFuncs {
+			if scan(a) {
+				return true
+			}
+		}
+		return false
+	}
+	return scan(fn)
+}
+
+func blockReaches(from, to *ssa.BasicBlock) bool {
+	seen := map[*ssa.BasicBlock]bool{}
+	work := []*ssa.BasicBlock{from}
+	for len(work) > 0 {
+		b := work[len(work)-1]
+		work = work[:len(work)-1]
+		for _, s := range b.Succs {
+			if s == to {
+				return true
+			}
+			if !seen[s] {
+				seen[s] = true
+				work = append(work, s)
+			}
+		}
+	}
+	return false
 }
 
 func dbgAll(site int) bool {
